@@ -114,6 +114,11 @@ impl Link {
         self.ops.last()
     }
 
+    pub fn ends_with_symbol(&self) -> bool {
+        let len = self.ops.len();
+        self.symbols.values().any(|(op_addr, _)| *op_addr == len)
+    }
+
     pub fn drain<R>(&mut self, range: R) -> std::vec::Drain<'_, Opcode>
     where
         R: std::ops::RangeBounds<usize>,
